@@ -259,9 +259,9 @@ func runC05(c *core.Ctx) {
 
 func init() {
 	register(&Prop{ID: "C05", Level: "exploration", NeedIn: true,
-		Rule: "(a) CLI: seeded histories over name sets of depth 1-4 (letters, digits, space, - . + _ ( non-ASCII, sibling-suffix families), incl. the commit made after all files were removed; the monitor records the staged set at every commit; at the end, for up to 5-8 commits: reflog -> reset --mixed HEAD@{n} -> ls-files -s must equal the recorded set and the independent decode; cat-file -p of every tree of that commit must list exactly the independently decoded children (kind, id, complete name); (b) in-process+CLI: indexes built through the real Index.Update with chosen 20-byte ids (0x00, 0x20, 0x0a at every position, all-zero, random), real `goit write-tree`, read back through GetObject+NewTree; distinct = (name-shape class, special-byte position class)",
-		Mons:  func() []core.Monitor { return []core.Monitor{C05Mon{}} },
-		Run:   runC05,
+		Rule:   "(a) CLI: seeded histories over name sets of depth 1-4 (letters, digits, space, - . + _ ( non-ASCII, sibling-suffix families), incl. the commit made after all files were removed; the monitor records the staged set at every commit; at the end, for up to 5-8 commits: reflog -> reset --mixed HEAD@{n} -> ls-files -s must equal the recorded set and the independent decode; cat-file -p of every tree of that commit must list exactly the independently decoded children (kind, id, complete name); (b) in-process+CLI: indexes built through the real Index.Update with chosen 20-byte ids (0x00, 0x20, 0x0a at every position, all-zero, random), real `goit write-tree`, read back through GetObject+NewTree; distinct = (name-shape class, special-byte position class)",
+		Mons:   func() []core.Monitor { return []core.Monitor{C05Mon{}} },
+		Run:    runC05,
 		Floors: []core.Floor{{Key: "C05.reset-readback", Min: 200}, {Key: "C05.catfile-children", Min: 300}, {Key: "C05.newtree-ids", Min: 1000}, {Key: "C05.empty-snapshot", Min: 10}},
 	})
 }
